@@ -472,8 +472,11 @@ def main():
             else:
                 defs.append(f"  .prim {len(params)} (.arg {idx['__' + shape]})")
         else:
-            h = int(hashlib.sha256(norm.encode()).hexdigest()[:16], 16)
-            defs.append(f"  .user {len(params)}")
+            # the print covers the parameter list (names and order), the return type and the body,
+            # so it does not change when lalrpop merely renumbers the actions
+            sig = ", ".join(names) + " -> " + ret + " : " + norm
+            h = int(hashlib.sha256(sig.encode()).hexdigest()[:15], 16)
+            defs.append(f"  .user {len(params)} {h}")
             prints.append((n, len(params), h))
             user_src.append((n, names, ret, norm))
 
